@@ -9,7 +9,7 @@ from vlib.common import ShardResult, rng_for
 PROPERTY = "C18"
 LEVEL = "exploration"
 RULE = (
-    "Part X (exhaustive): every concatenation of <= L tokens (L=4 quick, L=5 thorough) from a 34-token alphabet covering every operator, bracket, word class, quote and illegal "
+    "Part X (exhaustive): every concatenation of <= L tokens (L=4 quick, L=5 thorough) from a 37-token alphabet covering every operator, bracket, word class, quote and illegal "
     "characters, compiled with parse() and - for every string of <=3 tokens and a deterministic 1/8 (quick) or 1/1 (thorough; 1/64 at L=5) slice of the longer ones - select() against a fixed "
     "environment.  Part M: token-level mutations (delete/duplicate/swap/insert/replace, bracket unbalancing, operator "
     "in operand position) of valid selectors from the C15 generator, through parse(), select() and probing().  "
@@ -32,7 +32,7 @@ SHARD_TIMEOUT = {"quick": 900, "thorough": 7200}
 EXHAUSTIVE = {}
 
 CORE = ["(", ")", ",", ">", ":", "=", "~", "!", "!!", "$", " as ", "f", "x", "#value", "@T", "*", "1", "'s'", "[", "]", "%", " "]
-EXTRA = ["{", "}", "[[", "]]", ">>", "#foo", "a.b", "/m/f", "'", "&", '"', ";"]
+EXTRA = ["{", "}", "[[", "]]", ">>", "#foo", "a.b", "/m/f", "'", "&", '"', ";", ".", "-", "1."]
 ALPHABET = CORE + EXTRA
 
 DOC_TYPEERROR = "A selector's category can only be a Tag."
